@@ -227,6 +227,21 @@ pub fn run_c07_c18(seed: u64, runno: u64, tag: &str, c07: bool, c18: bool, depth
     acc
 }
 
+/// closed-shuffle roots (endgames.rs): the tree is so small that the search runs through all
+/// its iterations (up to MAX_DEPTH) within a few hundred thousand nodes - the only way to reach
+/// per-ply state at large ply numbers. Reference run to the search's own end, then a sample of
+/// expiry points.
+pub fn run_c07_c18_shuffle(seed: u64, runno: u64, tag: &str, c07: bool, c18: bool) -> Acc {
+    let mut rng = Rng::new(crate::rng::mix(seed, tag, runno));
+    let mut acc = Acc::new();
+    let z = ZobristHasher::create_zobrist_hasher();
+    let root = crate::endgames::closed_shuffle_root(&mut rng);
+    let game = Game { start: root, moves: vec![], source: "closed-shuffle" };
+    acc.count("closed_shuffle_roots");
+    enumerate(&game, 99, 1, c07, c18, &mut acc, runno, &z, &mut rng, None);
+    acc
+}
+
 #[allow(clippy::too_many_arguments)]
 pub fn enumerate(game: &Game, depth: u32, full_limit: u64, c07: bool, c18: bool, acc: &mut Acc, runno: u64, z: &ZobristHasher, rng: &mut Rng, only_k: Option<u64>) {
     let root = game.final_pos();
@@ -236,13 +251,23 @@ pub fn enumerate(game: &Game, depth: u32, full_limit: u64, c07: bool, c18: bool,
     };
     let before = sb::table_counts(&table);
     // deep iterations are dear: a tighter node cap keeps one heavy position from dominating
-    let node_cap = if depth >= 4 { 150_000 } else { NODE_CAP };
+    let node_cap = if depth >= 90 { 3_000_000 } else if depth >= 4 { 150_000 } else { NODE_CAP };
     let refr = sb::run_search(&b, &table, u64::MAX, Some(depth + 1), node_cap);
     if refr.panicked.is_some() {
         if c07 {
             acc.violate(Violation { prop: "C07".into(), sig: "C07/panic/reference-run".into(), detail: format!("the search panicked with an unlimited clock: {:?} [root {}]", refr.panicked, root.fen()), scenario: scenario(game, None, depth, "C07"), run: runno });
         }
         return;
+    }
+    if depth >= 90 {
+        let deepest = refr.lines.iter().filter_map(|(_, l)| crate::verif_seam::info_depth(l)).max().unwrap_or(0);
+        acc.max("deepest_iteration_reported_on_a_closed_shuffle", deepest as u64);
+        if deepest >= 60 {
+            acc.count("probe_closed_shuffle_searched_beyond_iteration_60");
+        }
+        if !refr.stopped && !refr.capped {
+            acc.count("probe_search_ran_to_its_own_end");
+        }
     }
     if c18 {
         let lines: Vec<String> = refr.lines.iter().map(|(_, l)| l.clone()).collect();
